@@ -27,6 +27,7 @@ static std::string hxi(long v) { return hxs(v); }
 // ---- digest hash table (the model receives H as a table) -----------------------------------------
 static std::set<std::string> hdef_done;
 static bool g_emit = true;
+static unsigned long g_valctr = 0;
 static std::string hash_of(const std::string &hexv) {
 	mpz_t a, d; mpz_init(a); mpz_init(d);
 	mpz_set_str(a, hexv.c_str(), 16);
@@ -82,7 +83,7 @@ struct World {
 	World(int wid_in, size_t n_in, size_t t_in, size_t skip_in, const std::vector<bool> &byz_in, bool emit_in, bool oracle_in)
 		: wid(wid_in), n(n_in), t(t_in), skip(skip_in), emit(emit_in), oracle(oracle_in), byz(byz_in), offer_src(-1), used(false),
 		  misuse(false), nfail(0) {
-		g_emit = emit;
+		g_emit = emit; g_valctr = 0;       // payloads are unique within a world; a world re-run alone (--only) is identical
 		q.assign(n, std::vector<std::deque<M> >(n));
 		path.resize(n); left.resize(n); ndeliv.resize(n); nanswer.resize(n); nextseq.resize(n); pend.resize(n);
 		for (size_t i = 0; i < n; i++) {
@@ -200,6 +201,9 @@ struct World {
 			else
 				Rec("df").d(wid).d(p).d(from_i).t(offer).t(std::string(ok ? hx(m) : "none") + "/" + res + "/" + (used ? "1" : "0") + "/" + sent_tok() + "/" + state_tok(p));
 		}
+		// progress of the sender-specific call: with a message on offer it must hand out a value, deliver, or consume the message
+		if (from_mode && from_i < n && src >= 0 && !ok && !used && !delivered && !thrown)
+			fail("deliverfrom-starved", "DeliverFrom(" + std::to_string(from_i) + ") at party " + std::to_string(p) + " neither returned a value nor processed the pending message " + offer);
 		if (thrown) fail("exception", "Deliver threw at party " + std::to_string(p) + " offer=" + offer);
 		if (used && used_msg[3] == "5") nanswer[p][tagkey(used_msg)]++;
 		if (delivered) {
@@ -327,7 +331,6 @@ bool MemAio::Receive(std::vector<mpz_ptr> &m, size_t &i_out, const size_t, const
 static int g_world = 0;
 static unsigned long g_total_fail = 0;
 static std::string g_only;
-static unsigned long g_valctr = 0;
 
 static bool fifo_of_name(const std::string &name) { return name[0] != 'x'; }
 
